@@ -135,6 +135,7 @@ class VQueue:
             raise HarnessError('virtual child read from a queue')
         if w.sched is not None and w.sched.closing and w.sched.current_helper() is not None:
             raise _queue.Empty()      # the execution is over: left-over helper threads just run out
+        w.signal_point('Queue.get')
         if self.buf:
             item = self.buf.popleft()
             if self is w.result_queue:
@@ -184,12 +185,16 @@ class VProcess:
         return None if self.child is None else 4_000_000 + self.child.idx
 
     def start(self):
+        self.world.signal_point('Process.start:before-the-worker-exists')
         self.world.start_child(self)
+        self.world.signal_point('Process.start:worker-running')
 
     def is_alive(self) -> bool:
         if self.child is None:
             return False
-        return self.world.observe_liveness(self.child)
+        r = self.world.observe_liveness(self.child)
+        self.world.signal_point('Process.is_alive')
+        return r
 
     @property
     def exitcode(self):
@@ -201,6 +206,7 @@ class VProcess:
     def terminate(self):
         if self.child is not None:
             self.world.terminate_child(self.child, 'terminate')
+        self.world.signal_point('Process.terminate:signal-sent')
 
     def kill(self):
         if self.child is not None:
@@ -261,7 +267,8 @@ class VThread:
             w.in_helper_thread -= 1
 
     def join(self, timeout=None):
-        pass
+        if CUR is not None:
+            CUR.signal_point('Thread.join')
 
     def is_alive(self):
         return False
@@ -695,12 +702,20 @@ class VWorld:
         self.burst_reduced = False
         self.infinite_wait = False
         self.state_when_left: dict = {}
+        self.signal_hook = None           # C14 signal-faithful slice: called at instants inside (virtual) OS calls of the parent
         self.linger_labels: frozenset = frozenset()
         self.frozen = False               # after a second interrupt: executing children make no progress unless terminated
 
     # ---- bookkeeping
     def record(self, *ev):
         self.events.append(ev)
+
+    def signal_point(self, label: str):
+        """An instant inside an OS-level call made by the parent at which a pending signal would be
+        handled (the call then raises KeyboardInterrupt instead of returning)."""
+        if self.signal_hook is not None and self.current_child is None and self.in_helper_thread == 0:
+            if self.sched is None or self.sched.current_helper() is None:
+                self.signal_hook(label)
 
     def bind_runner(self, runner):
         """Tell the world which of the Manager queues is which (from the real runner object)."""
